@@ -1155,6 +1155,11 @@ _IX_IN = ['1', 'size', 'mid', '2', '1', 'size', 'size+1', '0']
 _NCNAME = re.compile(r'[A-Za-z_][A-Za-z0-9_]*\Z')
 
 
+def _unzero(b: bytes) -> bytes:
+    """hypothesis pads size-capped examples with zero bytes: an all-zero block becomes a fixed varied one"""
+    return b if any(b) else bytes((i * 37 + 11) % 251 for i in range(len(b)))
+
+
 class Src:
     def __init__(self, data: bytes):
         self.d, self.i = data, 0
@@ -1349,7 +1354,7 @@ def g_query(s, kp):
 
 def decode_hist(blocks):
     head, steps_b = blocks
-    s = Src(head)
+    s = Src(_unzero(head))
     kp = g_kpool(s)
     steps = []
     # seed the pool: two maps and two arrays built by the constructors
@@ -1357,6 +1362,8 @@ def decode_hist(blocks):
         steps.append(['m.ctor', _dedup(s.many(lambda: [s.pick(kp), g_value(s, kp, 1)], 1, 5))])
         steps.append(['a.ctor', s.many(lambda: g_value(s, kp, 1), 1, 5)])
     for b in steps_b:
+        if not any(b):
+            continue        # hypothesis pads size-capped examples with zero blocks: no step instead of a trivial one
         s = Src(b)
         c = s.n(10)
         if c < 3:
@@ -1426,7 +1433,7 @@ def _strip_refs(v):          # no pool references in the deq sub-check
 
 
 def decode_deq(data):
-    s = Src(data)
+    s = Src(_unzero(data))
     kp = g_kpool(s)
     v1 = _strip_refs(g_value(s, kp, 2))
     c = s.n(10)
